@@ -75,6 +75,17 @@ static void run_one(const unsigned char *s, int n, unsigned mask, int do_end){
         r2 = PEND(ST); if (r2 != 1){ out8('V'); out8(203); NINV++; }
 #endif
       }
+#if ZEROLEN
+      if (r == 0){   /* an empty chunk placed at the very end of the (exactly sized) buffer: must be a no-op returning OK, and must not read *end */
+        const uint8_t *pe = buf + (b - a); int rz; NFEED++;
+#if INDIRECT
+        CUR_PP = &pe; rz = PFEED(&pe, buf + (b - a), ST); CUR_PP = NULL; if (rz != 0 || pe != buf + (b - a)){ out8('V'); out8(206); NINV++; }
+#else
+        rz = PFEED(pe, buf + (b - a), ST); if (rz != 0){ out8('V'); out8(206); NINV++; }
+#endif
+        { int iv = inv(); if (iv){ out8('V'); out8(iv); NINV++; } }
+      }
+#endif
       if (r == 0) break;
       if (r >= FIRST_YIELD){
         out8('Y'); out8(r); out32(NOOFF ? 0 : cur);
@@ -230,7 +241,7 @@ def gen_shim(acc, sentinels=None):
     o = []
     o.append('#include "%s.h"\n#include <string.h>\n#include <stdlib.h>' % name)
     o.append("#define PSTATE_T %s_state_t\n#define PSTART %s_start\n#define PFEED %s_feed\n#define PEND %s_end" % ((name,) * 4))
-    o.append("#define INDIRECT %d\n#define EOFS %d" % (int(indirect), int(eof)))
+    o.append("#define INDIRECT %d\n#define EOFS %d\n#define ZEROLEN %d" % (int(indirect), int(eof), int(PD.do(PF.ZERO_LEN_INPUT_SUPPORT))))
     o.append("#define FIRST_YIELD %d" % (3 + len(d.finish_codes)))
     o.append("static void hook_record(int idx, uint8_t inval);")
     for i, h in enumerate(d.hooks):
@@ -333,6 +344,8 @@ FLAVORS = {
     "gcc": ["gcc", "-std=gnu99", "-O1", "-w"],
     "gcc0": ["gcc", "-std=gnu99", "-O0", "-w"],
     "asan": ["clang", "-std=gnu99", "-O1", "-g", "-w", "-fsanitize=address,undefined", "-fno-sanitize-recover=all"],
+    # unoptimised: every load and store the generated text contains is executed and instrumented (an optimiser may sink or drop a stray read)
+    "asan0": ["clang", "-std=gnu99", "-O0", "-g", "-w", "-fsanitize=address,undefined", "-fno-sanitize-recover=all"],
 }
 
 
